@@ -1,4 +1,4 @@
-(* Props/C04More.v — property C04, the classes Props/C04.v left open (C04_reset_erases_step_leaf_partial): lemmas in
+(* Props/C04More.v — property C04, the classes Props/C04.v left open (see the comment above C04_reset_erases_step_leaf): lemmas in
    Pat/ResetProofs2.v.
 
    xpat s p   the extended reset fragment.  s = false: every class of rpat (Props/C04.v), now also with tuple- / list- /
@@ -7,7 +7,8 @@
               or a literal list with pattern items), PDict, PDictKey, and PReset(p, trigger) for ANY p of the strict part;
               nested to any depth.  s = true: the strict part (PPingPong / PReverse only over inputs of the fragment;
               list- / dict-valued parameters in value position hold no pattern at all).
-   Excluded, and the statement is FALSE there (C04_more_tuple_pattern_not_rewound): a pattern stored inside a tuple.
+   Excluded, and the statement is FALSE there (C04_more_tuple_pattern_not_rewound; known finding C04-reset-tuples): a pattern
+   stored inside a tuple.
    binop (operator semantics) is arbitrary; f, f' are recursion fuels; run, reset, step as in Props/C04.v. *)
 From Isobar Require Import Base.Prelude Pat.Val Pat.Syntax Pat.Step Pat.StepProofs Pat.IterProofs Pat.ResetProofs Pat.ResetProofs2.
 From Coq Require Import String QArith.
@@ -17,7 +18,7 @@ Section AnyOperators.
   Variable binop : op -> val -> val -> outcome val.
   Variable LMAX : nat.
 
-  (* the full statement of C04_reset_erases_step_leaf_partial, for the extended fragment: reset() erases whatever one
+  (* the full statement quoted above C04_reset_erases_step_leaf, for the extended fragment: reset() erases whatever one
      next() changed - in the object, in every pattern nested inside it, in the items of its lists and dicts *)
   Theorem C04_more_reset_erases_step : forall s f f' p,
     xpat s p -> reset binop LMAX f (snd (step binop LMAX f' p)) = reset binop LMAX f p.
@@ -138,7 +139,9 @@ Qed.
    values, not tuples (Step.reset_field transcribes that), while Pattern.value(tuple) advances the patterns inside:
    PSequence([(PSeries(0, 1), 7)], 3) after one next() and reset() still has its series at 1.  The implementation
    behaves the same (next, next, reset, next gives (0, 7) (1, 7) (2, 7); a new instance starts at (0, 7)): model and
-   code agree, the property does not hold for such objects; they are outside xpat and are not generated by the check. *)
+   code agree.  This is a violation of C04 ("... and the same is true of every pattern nested inside it"): the KNOWN FINDING
+   C04-reset-tuples (known_findings.d/C04.json, findings/C04-reset-tuples.md with the proposed repair); the tuple stratum of
+   harness/c04.py generates such objects and reports it as known.  They are outside xpat. *)
 Definition ex_tuple : pat := PSequence (AL [AT [AP (ser 0 9); AV (VInt 7)]]) (AV (VInt 3)) 0 0.
 Example C04_more_tuple_pattern_not_rewound :
   reset Val.binop 100 30 ex_tuple = Yield ex_tuple /\
